@@ -513,7 +513,7 @@ def stop_multitone_job(c, seed, nfit=8000, K=8, total_amp=0.9):
     a, b = H, len(y) - H
     if b - a < 200:
         return {"skipped": "stream too short"}
-    out = dict(engine=info["engine"], bits=bits_of(info), plan=plan_signature(info), pclass=plan_class(info), flags=finding_flags(info),
+    out = dict(engine=info["engine"], bits=bits_of(info), phase=info["q"]["phase"], plan=plan_signature(info), pclass=plan_class(info), flags=finding_flags(info),
                freqs=[float(f) for f in fs], amp_each=amp, sum_amp=amp * len(fs), n_in=N, n_fit=b - a, horizon=H,
                level=float(np.abs(y[a:b]).max()), sb=info["q"]["sb"], pb=info["q"]["pb"],
                kinds="+".join(s["kind"] for s in info["stages"]) or "none")
@@ -689,10 +689,12 @@ def _f1_listed_known():
 
 def fph1_signature(info):
     """Known finding F-PH1 (known_findings.d/phase.json; signal.json for C01 / C02 / C12): precision >= 28, 0 < min(phase, 100-phase)
-    <= 25, a dft stage with fewer than 64 taps per output phase (num_taps < 64 x max(4, L): the 256 of phase.json for L <= 4; the
-    L = 8 .. 256 post stages - 241 taps at L = 8, 481 at 16, 961 at 32 - became measurable when F1 was repaired)."""
+    < 30 (the defect's tail beyond 25 is <= 1.3 dB), a dft stage with fewer than 64 taps per output phase (num_taps < 64 x max(4, L): the 256
+    of phase.json for L <= 4; the L = 8 .. 256 post stages - 241 taps at L = 8, 481 at 16, 961 at 32 - became measurable when F1 was
+    repaired).  Configuration and plan parts shared with checks/c14.py (checks/phaselib.py)."""
+    from checks import phaselib
     ph = info["q"]["phase"]
-    return bits_of(info) >= 28 and 0 < min(ph, 100 - ph) <= 25 and any(s["kind"] == "dft" and s["numTaps"] < 64 * max(4, s["L"]) for s in info["stages"])
+    return phaselib.fph1_config(bits_of(info), ph) and phaselib.fph1_plan(info["stages"])
 
 
 def _coprime_pairs(n):
@@ -889,7 +891,7 @@ def finding_flags(info):
 
 # symptom part of the signatures: metric -> largest measured/bound ratio that still is the known finding (anything above is reported)
 FINDING_SYMPTOM = {
-    "F-PH1": {"stop": 8.0, "img": 8.0, "res": 4.0, "rowsum": 4.0},      # at most 18 dB above 2^-bits (known_findings.d/phase.json)
+    "F-PH1": {"stop": 8.0, "img": 8.0, "res": 4.0, "rowsum": 4.0},      # stop / img: replaced per precision and phase by fph1_limit() below
     "F-SG1": {"gain": 2.0},                                              # |gain error| in (0.01, 0.02] dB
     "F-SG3": {"stop": 1.13},                                             # at most 1 dB above 2^-bits
     "F-SG5": {"res": 1.5},                                               # fit residual <= 1.5 x 2^(1-bits)
@@ -905,6 +907,18 @@ def set_active(pid):
     return ACTIVE
 
 
+def fph1_limit(r, metric):
+    """F-PH1's symptom for the stop-band / image metrics: the worst shortfall measured for the precision (calibration sweep of
+    design-probes/fph1/fph1_sweep*.py, table FPH1_WORST_DB of checks/phaselib.py: 6.6 dB at 28 bits ... 23.6 dB at 33 bits) plus 1.5 dB, as a
+    ratio to 2^-bits; 2.0 dB in the tail 25 < min(phase, 100-phase) < 30.  The other metrics keep their fixed factors."""
+    if metric in ("stop", "img") and r.get("bits") is not None and r.get("phase") is not None:
+        from checks import phaselib
+        a = phaselib.fph1_allowance_db(float(r["bits"]), float(r["phase"]))
+        if a is not None:
+            return 10.0 ** (a / 20.0)
+    return FINDING_SYMPTOM["F-PH1"][metric]
+
+
 def known_excess(r, metric, m, level=None):
     """r: a job_rows / tone result carrying "flags"; metric in stop/img/res/rowsum/gain; m = measured/bound (> 1 fails).
     Returns the id of the known finding that explains the excess, or None (then it is a violation)."""
@@ -913,7 +927,7 @@ def known_excess(r, metric, m, level=None):
     for fid, on in sorted(r.get("flags", {}).items()):
         if not on or fid not in ACTIVE or metric not in FINDING_SYMPTOM[fid]:
             continue
-        if m <= FINDING_SYMPTOM[fid][metric]:
+        if m <= (fph1_limit(r, metric) if fid == "F-PH1" else FINDING_SYMPTOM[fid][metric]):
             return fid
     return None
 
@@ -1023,7 +1037,7 @@ def job_tone(args):
             return {"cfg": c, "label": cfg_label(c), "skipped": "known finding F1 signature", "f1": True, "f1_linear": info["q"]["phase"] == 50}
         d = tone_job(c, **kw)
         d.update(cfg=c, label=cfg_label(c), kw=kw, class_db=gain_class_db(info), pb=info["q"]["pb"], sb=info["q"]["sb"],
-                 pclass=plan_class(info), flags=finding_flags(info))
+                 pclass=plan_class(info), flags=finding_flags(info), phase=info["q"]["phase"])
         return d
     except Exception as e:
         import traceback
